@@ -285,13 +285,34 @@ async fn episode(p: &EpParams) -> EpReport {
                 // DeleteSubscription racing a Publish on its topic
                 if let Some(ms) = seq.m.subs.get(&s).cloned() {
                     if !ms.topic_deleted && seq.m.topics.contains_key(&ms.topic) {
-                        let msgs = seq.fresh_msgs(1);
-                        let tags: Vec<String> = msgs.iter().map(|m| m.tag.clone()).collect();
-                        let (c1, c2) = (Cx::new(&w, 5), Cx::new(&w, 6));
-                        let (tp, sp, m2) = (ms.topic.clone(), s.clone(), msgs.clone());
-                        let a = tokio::spawn(async move { c1.publish(&tp, &m2).await });
-                        let b = tokio::spawn(async move { c2.delete_sub(&sp).await });
-                        let (ra, rb) = (a.await, b.await);
+                        // one publish, or a burst larger than the topic's 16-slot mailbox with the
+                        // delete somewhere in the middle (the subscription's removal request then has
+                        // to wait for room in the topic's mailbox)
+                        let k = if rng.chance(1, 2) { 1 } else { rng.range(17, 30) as usize };
+                        let del_pos = rng.below(k as u64 + 1) as usize;
+                        let mut pubs = Vec::new();
+                        let mut tags: Vec<String> = Vec::new();
+                        let mut del = None;
+                        for i in 0..=k {
+                            if i == del_pos {
+                                let (c2, sp) = (Cx::new(&w, 6), s.clone());
+                                del = Some(tokio::spawn(async move { c2.delete_sub(&sp).await }));
+                            }
+                            if i < k {
+                                let msgs = seq.fresh_msgs(1);
+                                let tg: Vec<String> = msgs.iter().map(|m| m.tag.clone()).collect();
+                                tags.extend(tg.iter().cloned());
+                                let (c1, tp) = (Cx::new(&w, 100 + i as u32), ms.topic.clone());
+                                pubs.push((tg, tokio::spawn(async move { c1.publish(&tp, &msgs).await })));
+                            }
+                        }
+                        let rb = del.unwrap().await;
+                        let mut done: Vec<(Vec<String>, Vec<String>)> = Vec::new();
+                        for (tg, h) in pubs {
+                            if let Ok(Ok(ids)) = h.await {
+                                done.push((tg, ids));
+                            }
+                        }
                         w.settle().await;
                         if let Ok(Ok(())) = rb {
                             seq.m.delete_sub(&s);
@@ -299,8 +320,13 @@ async fn episode(p: &EpParams) -> EpReport {
                         } else {
                             rep.viol("C10", "C10:status:DeleteSubscription", format!("delete of an existing subscription racing a publish answered {:?}", rb.map(|r| r.err().map(|e| e.code()))));
                         }
-                        if let Ok(Ok(ids)) = ra {
-                            seq.m.published(&ms.topic, &tags, &ids);
+                        // the topic accepted the publishes in the order of the ids it issued
+                        done.sort_by_key(|(_, ids)| ids.first().and_then(|i| i.parse::<u128>().ok()).unwrap_or(0));
+                        for (tg, ids) in &done {
+                            seq.m.published(&ms.topic, tg, ids);
+                        }
+                        if k > 1 {
+                            rep.inc("delete_inside_publish_burst");
                         }
                         seq.steps.push(format!("race delete_sub({}) || publish({:?})", short(&s), tags));
                         seq.after_step("Publish").await;
